@@ -30,7 +30,7 @@ EXPLANATION = (
     "classes owning a `line` target must coincide; in the rewrite loop the old->new index is recorded unconditionally before the "
     "expansion is appended; the past-the-end target is mapped to len(new_commands) on the same path that sets the no-op flag and the "
     "no-op is appended under exactly that flag; writes_to() of each class equals the register operand written by its executor "
-    "handler (C04 signatures); every write to a Q register by an instruction other than `set` must drop the tracked value."
+    "handler (C04 signatures); every write to a Q register by an instruction other than `set` must drop the tracked value; the scratch register for carbon-carbon gates is chosen outside a set that receives every Register operand of every instruction and never shrinks."
 )
 LEVEL_TEXT = (
     "Static analysis, partial: the structural conditions of jump retargeting and of the Q-register value tracking are decided for all "
@@ -266,6 +266,7 @@ def run(ctx):
               "an instruction other than `set` that writes a Q register (e.g. `load Q0 @a[i]`) leaves the previously tracked value in place: "
               "the decomposition chosen for a later two-qubit gate reflects a stale qubit id (wrong circuit or assertion)", repo.loc(m, track),
               sample={"tracking loop": src(track)[:160]})
+    check_scratch(ctx, nvt, rw)
     # the tracked values are what the two-qubit dispatch reads
     h2 = nvt.methods.get("_handle_two_qubit_gate")
     ok = h2 is not None and sum(1 for c in A.calls_in(h2) if A.call_name(c) == "get_reg_value") >= 2
@@ -274,9 +275,64 @@ def run(ctx):
     ctx.check("C08.V", "two-qubit-dispatch:reads-tracked-values", ok, "the two-qubit dispatch does not read the tracked register values (anchor changed)", repo.loc(m, h2) if h2 else "", trivial=True)
 
 
+def check_scratch(ctx, nvt, rw):
+    """C08.U: the scratch (borrowed-electron) register is one the program has not mentioned: the set it is tested against
+    receives every Register operand of every instruction and never shrinks."""
+    repo = ctx.repo
+    m = nvt.module
+    gu = nvt.methods.get("get_unused_register")
+    if gu is None:
+        raise AnalysisError("NVSubroutineTranspiler.get_unused_register not found")
+    ctx.fn("NVSubroutineTranspiler.get_unused_register")
+    excl = set()
+    for r in A.returns(gu):
+        if isinstance(r.value, ast.Name):
+            for t, pol in G.enclosing_tests(gu, r):
+                if pol and isinstance(t, ast.Compare) and len(t.ops) == 1 and isinstance(t.ops[0], ast.NotIn) and A.norm(t.left) == r.value.id and A.is_self_attr(t.comparators[0]):
+                    excl.add(t.comparators[0].attr)
+    ctx.check("C08.U", "get_unused_register:candidate-tested-against-a-set", len(excl) == 1,
+              f"the scratch register is not returned under exactly one `reg not in self.<set>` test (found {sorted(excl)})", repo.loc(m, gu))
+    if len(excl) != 1:
+        return
+    S = next(iter(excl))
+    # (a) every Register operand of every instruction is added, unconditionally, in the rewrite loop before the expansion
+    instr_v = rw.target.elts[1].id if isinstance(rw.target, ast.Tuple) else rw.target.id
+    adds_all = False
+    for st in rw.body:
+        if isinstance(st, ast.For) and A.norm(st.iter) == f"{instr_v}.operands" and isinstance(st.target, ast.Name):
+            ov = st.target.id
+            for x in ast.walk(st):
+                if isinstance(x, ast.Call) and isinstance(x.func, ast.Attribute) and A.is_self_attr(x.func.value, S) and x.func.attr in ("add", "update") and x.args and A.contains_name(x.args[0], ov):
+                    conds = [c_ for c_ in ast.walk(st) if isinstance(c_, ast.If) and any(y is x for y in ast.walk(c_))]
+                    adds_all = all(A.norm(c_.test) == f"isinstance({ov},Register)" and any(y is x for b_ in c_.body for y in ast.walk(b_)) for c_ in conds)
+    ctx.check("C08.U", f"transpile:every-register-operand-recorded-in-{S}", adds_all,
+              f"the rewrite loop does not add every Register operand of every instruction to self.{S}, the set the scratch register is chosen outside of: "
+              "a register the program uses (e.g. one filled by `load`) can be picked as scratch and overwritten with `set <reg> 0`", repo.loc(m, rw),
+              sample={"set": S})
+    # (b) the set never shrinks
+    shrinks = []
+    for name, fn in nvt.methods.items():
+        if name == "__init__":
+            continue
+        for x in ast.walk(fn):
+            if isinstance(x, ast.Call) and isinstance(x.func, ast.Attribute) and A.is_self_attr(x.func.value, S) and x.func.attr in ("pop", "remove", "discard", "clear", "difference_update", "intersection_update", "popitem"):
+                shrinks.append(f"{name}: {src(x)}")
+            if isinstance(x, ast.Delete) and any(isinstance(t, ast.Subscript) and A.is_self_attr(t.value, S) for t in x.targets):
+                shrinks.append(f"{name}: {src(x)}")
+            if isinstance(x, ast.Assign) and any(A.is_self_attr(t, S) for t in x.targets):
+                shrinks.append(f"{name}: {src(x)}")
+    ctx.check("C08.U", f"{S}:never-shrinks", not shrinks,
+              f"self.{S} decides which registers may be taken as scratch but entries are removed from it ({'; '.join(shrinks)[:200]}): a register that is still live becomes eligible", repo.loc(m, gu))
+
+
 TP = "netqasm/sdk/transpile.py"
 CO = "netqasm/lang/instr/core.py"
 SEEDS = [
+    dict(id="c08-scratch-from-tracked-values", file=TP, expect="C08.U", construct="never-shrinks",
+         old="            if reg not in self._used_registers:", new="            if reg not in self._register_values:"),
+    dict(id="c08-used-registers-only-set-targets", file=TP, expect="C08.U", construct="every-register-operand-recorded",
+         old="                if isinstance(op, Register):\n                    self._used_registers.update([op])", new="                if isinstance(op, Register) and isinstance(instr, core.SetInstruction):\n                    self._used_registers.update([op])"),
+
     dict(id="c08-drop-jmp", file=TP, expect="C08.J", construct="NV transpiler", old="                or isinstance(instr, core.BranchBinaryInstruction)\n                or isinstance(instr, core.JmpInstruction)\n            ):\n                original_line = instr.line.value\n                if original_line == len(self._subroutine.instructions):\n                    # There was a label in the original subroutine at the very end.\n                    # Since this label is now removed, we should put a \"no-op\"\n                    # instruction there so there is something to jump to.\n                    add_no_op_at_end = True\n                    instr.line",
          new="                or isinstance(instr, core.BranchBinaryInstruction)\n            ):\n                original_line = instr.line.value\n                if original_line == len(self._subroutine.instructions):\n                    # There was a label in the original subroutine at the very end.\n                    # Since this label is now removed, we should put a \"no-op\"\n                    # instruction there so there is something to jump to.\n                    add_no_op_at_end = True\n                    instr.line"),
     dict(id="c08-index-after", file=TP, expect="C08.I", construct="index-recorded", old="            index_changes[i] = len(new_commands)\n\n            if isinstance(instr, core.SingleQubitInstruction) or isinstance(\n                instr, core.RotationInstruction\n            ):\n                new_commands += self._handle_single_qubit_gate(instr)\n            elif isinstance(instr, core.TwoQubitInstruction):\n                new_commands += self._handle_two_qubit_gate(instr)\n            else:\n                new_commands += [instr]\n",
